@@ -201,6 +201,22 @@ def feasible (p : Problem) (s : Solution) : List String := Id.run do
       if sl.loc != some e.loc then errs := s!"{name}: does not end at the shift end location" :: errs
       if sl.arrival > e.latest then errs := s!"{name}: arrives at {sl.arrival} after shift end {e.latest}" :: errs
     | _, _ => pure ()
+    -- optional breaks: a taken break is one the shift defines - duration and location of one of its places, begun inside its
+    -- time window (service starts at max(arrival, window start), the arrival is not after the window end); an offset window
+    -- counts from the departure of the tour
+    let dep0 := (sv.head?.map (·.fin)).getD ((t.stops.head?.map (·.departure)).getD 0)
+    for x in sv do
+      if x.act.type == "break" && !sh.breaks.isEmpty then
+        let single := (t.stops[x.stopIdx]?.map (·.activities.length)).getD 0 == 1
+        let ok := sh.breaks.any (fun b =>
+          let w : Int × Int := if b.offset then (dep0 + b.time.1, dep0 + b.time.2) else b.time
+          b.places.any (fun bp =>
+            (match bp.loc with | some l => l == x.loc | none => true) &&
+            decide (x.arr ≤ w.2) &&
+            (if single && bp.loc.isSome then decide (max x.arr w.1 + bp.dur == x.fin)
+             else decide (x.start == max x.arr w.1) && decide (x.fin - x.start == bp.dur))))
+        if !ok then
+          errs := s!"{name}: break at stop {x.stopIdx} (arrival {x.arr}, {x.start}-{x.fin}) fits no break of the shift" :: errs
     -- reachability and time windows of jobs
     let dims := vt.capacity.length
     for x in sv do
